@@ -44,6 +44,8 @@ pub struct Gen<'a, 'b> {
     budget: i64,
     pub profile: Profile,
     no_calls: usize,
+    /// C02 'wide' mode: constructs whose result the language does not pin down are allowed
+    pub wide: bool,
 }
 
 const SMALL_I64: &[i64] = &[0, 1, 2, 3, 5, 7, 10, -1, -2, 13, 100, 255, 256, 1000];
@@ -86,6 +88,7 @@ impl<'a, 'b> Gen<'a, 'b> {
             budget: 600,
             profile,
             no_calls: 0,
+            wide: false,
         }
     }
 
@@ -309,6 +312,11 @@ impl<'a, 'b> Gen<'a, 'b> {
                 let b = self.expr(t);
                 self.feat("wrapping");
                 Expr::Intrinsic(name, Box::new(a), vec![b])
+            }
+            4 if self.wide && self.c.chance(1, 2) => {
+                // float -> int: out-of-range results are not pinned down by the language
+                let src = if self.c.chance(1, 2) { Ty::F64 } else { Ty::F32 };
+                Expr::Intrinsic(if *t == Ty::I64 { "to_int64" } else { "to_int32" }, Box::new(self.expr(&src)), vec![])
             }
             4 => {
                 // conversion from another type
@@ -1089,9 +1097,13 @@ impl<'a, 'b> Gen<'a, 'b> {
                 // The language does not pin down whether the target of `x op= e` is read before or
                 // after `e` (the implementation reads it after): `e` must not be able to modify the
                 // target, so it contains no calls other than the pure trace helper.
-                self.no_calls += 1;
+                if !self.wide {
+                    self.no_calls += 1;
+                }
                 let e = self.expr(&t);
-                self.no_calls -= 1;
+                if !self.wide {
+                    self.no_calls -= 1;
+                }
                 if !matches!(lv, LValue::Var(_)) {
                     self.feat("compound-non-local");
                 }
@@ -1593,6 +1605,12 @@ pub fn subst(t: &Ty, with: &Ty) -> Ty {
         Ty::Fun(ps, r) => Ty::Fun(ps.iter().map(|t| subst(t, with)).collect(), Box::new(subst(r, with))),
         t => t.clone(),
     }
+}
+
+pub fn generate_wide(c: &mut Choices) -> Program {
+    let mut g = Gen::new(c, Profile::Core);
+    g.wide = true;
+    g.program()
 }
 
 pub fn generate(c: &mut Choices, profile: Profile) -> Program {
